@@ -161,16 +161,21 @@ def check_permutation_greedy(chk, fi: FuncInfo) -> None:
         return
     pl = pls[0]
     perm = pl.target.id
-    chk.expect(
-        astq.match(pl.iter, f"itertools.permutations({comp})") is not None,
-        "greedy-perms",
-        fi.site(pl),
-        "every ordering of the component's stems is tried: itertools.permutations(component)",
-        f"`{norm(pl.iter)}` does not enumerate all orderings of the whole component",
-        K(fi, "permutations"),
-        expected=f"itertools.permutations({comp})",
-        found=norm(pl.iter),
-    )
+    if isinstance(pl.iter, ast.Call) and astq.dotted(pl.iter.func) == "itertools.permutations":
+        chk.expect(
+            len(pl.iter.args) == 1 and not pl.iter.keywords and norm(pl.iter.args[0]) == comp,
+            "greedy-perms",
+            fi.site(pl),
+            "every ordering of the component's stems is tried: itertools.permutations(component)",
+            f"`{norm(pl.iter)}` does not enumerate all orderings of the whole component",
+            K(fi, "permutations"),
+            expected=f"itertools.permutations({comp})",
+            found=norm(pl.iter),
+        )
+    elif isinstance(pl.iter, (ast.List, ast.Tuple)):
+        chk.violation("greedy-perms", fi.site(pl), f"only the orderings `{norm(pl.iter)}` are tried, not all permutations of the component", K(fi, "permutations"), found=norm(pl.iter))
+    else:
+        chk.error("greedy-perms", fi.site(pl), f"enumeration of orderings `{norm(pl.iter)}` not recognised")
     skip = [n for s in cl.body for n in ast.walk(s) if isinstance(n, (ast.Break, ast.Continue))]
     chk.expect(not skip, "greedy-perms", fi.site(cl), "no component or permutation is skipped", "break/continue in the component/permutation loops skips cases", K(fi, "perm-skip"))
     # orders init per permutation
@@ -226,7 +231,7 @@ def check_permutation_greedy(chk, fi: FuncInfo) -> None:
         found=norm(inn.iter),
     )
     exits = [n for s in inn.body for n in ast.walk(s) if isinstance(n, (ast.Break, ast.Continue))]
-    chk.expect(not exits, "greedy-earlier", fi.site(inn), "the scan has no early exit", "break/continue in the scan over earlier positions", K(fi, "greedy-exit"))
+    chk.expect(not exits, "greedy-earlier-exit", fi.site(inn), "the scan has no early exit", "break/continue in the scan over earlier positions", K(fi, "greedy-exit"))
     marks = [s for s in ast.walk(inn) if isinstance(s, ast.Assign) and astq.match(s, f"available[orders[{perm}[{j}]]] = False") is not None]
     ok = False
     if len(marks) == 1:
@@ -268,23 +273,20 @@ def check_permutation_greedy(chk, fi: FuncInfo) -> None:
 def check_product(chk, fi: FuncInfo) -> None:
     fm = FlowMap(fi.node)
     env, R = c01.regions_term(chk, fi)
-    pls = [l for l in fi.node.body if isinstance(l, ast.For) and "product" in norm(l.iter)]
+    pls = [l for l in fi.node.body if isinstance(l, ast.For) and "unique" in astq.names(l.iter)]
     if len(pls) != 1 or not isinstance(pls[0].target, ast.Name):
-        chk.violation("product", fi.where, "no loop over itertools.product(*unique): per-component assignments are not combined freely", K(fi, "product"))
+        chk.error("product", fi.where, "loop combining the per-component assignments (over `unique`) not found")
         return
     pl = pls[0]
     a = pl.target.id
-    chk.expect(
-        astq.match(pl.iter, "itertools.product(*unique)") is not None,
-        "product",
-        fi.site(pl),
-        "component assignments are combined freely: itertools.product(*unique)",
-        f"`{norm(pl.iter)}` is not the cartesian product over all components",
-        K(fi, "product"),
-        found=norm(pl.iter),
-    )
+    if isinstance(pl.iter, ast.Call) and astq.dotted(pl.iter.func) == "itertools.product":
+        chk.expect(norm(pl.iter) == "itertools.product(*unique)", "product", fi.site(pl), "component assignments are combined freely: itertools.product(*unique)", f"`{norm(pl.iter)}` is not the cartesian product over all components", K(fi, "product"), found=norm(pl.iter))
+    elif isinstance(pl.iter, ast.Call) and astq.dotted(pl.iter.func) in ("zip", "itertools.zip_longest", "itertools.chain"):
+        chk.violation("product", fi.site(pl), f"`{norm(pl.iter)}` pairs the assignments of the components position by position instead of combining them freely", K(fi, "product"), found=norm(pl.iter))
+    else:
+        chk.error("product", fi.site(pl), f"combination of per-component assignments `{norm(pl.iter)}` not recognised")
     skip = [n for s in pl.body for n in ast.walk(s) if isinstance(n, (ast.Break, ast.Continue))]
-    chk.expect(not skip, "product", fi.site(pl), "no combination is skipped", "break/continue in the product loop", K(fi, "product-skip"))
+    chk.expect(not skip, "product-skip", fi.site(pl), "no combination is skipped", "break/continue in the product loop", K(fi, "product-skip"))
     oi = [s for s in pl.body if isinstance(s, ast.Assign) and norm(s.targets[0]) == "orders"]
     ok = len(oi) == 1 and (astq.match(oi[0].value, "{X_: 0 for X_ in range(len(regions))}") is not None or astq.match(oi[0].value, "[0] * len(regions)") is not None or astq.match(oi[0].value, "[0 for X_ in range(len(regions))]") is not None)
     chk.expect(ok, "product-default", fi.site(pl), "regions outside every conflict component default to level 0", "levels of regions are not defaulted to 0 for every region index", K(fi, "default"), found=norm(oi[0].value) if oi else None)
